@@ -112,7 +112,8 @@ def gen_cases(seed, chunk, n, tier):
                                                      keep=rng.choice([0.3, 0.5]), max_ndim=4,
                                                      ncon=rng.choice([2, 2, 3]), max_size=1)
             else:
-                a, b, xa, xb = gen.rand_contractible(rng, sym, static=static, dtype=dtype, keep=keep)
+                a, b, xa, xb = gen.rand_contractible(rng, sym, static=static, dtype=dtype, keep=keep,
+                                                     share_objects=rng.random() < 0.2)
             if kind == "noalign" and xa and a.blocks and b.blocks:
                 # keep only blocks of a with one contracted charge pattern and of b with another
                 ka = {tuple(s[i] for i in xa) for s in a.blocks}
